@@ -146,6 +146,13 @@ Definition class_of_loaded (r : raw) : option string :=
 (* edges designated by the keys of hard_edges: mesh.edges[e]; None = IndexError *)
 Definition hard_edge_list (m : mesh) (ks : list Z) : option (list (Z * Z)) := omap (fun k => py_nth (mE m) k) ks.
 
+(* the exporters of .obj / .xyz write the vertex / face-corner attributes named in Gen (uv_coords, normals) as extra lines or
+   columns: meshes carrying them are outside this model (guard of the obj and xyz theorems) *)
+Definition attr_names (l : list attr) : list string := map a_name l.
+Definition no_obj_attrs (m : mesh) : Prop :=
+  forall n, In n obj_exp_special_attrs -> ~ In n (attr_names (aV m)) /\ ~ In n (attr_names (aFC m)).
+Definition no_xyz_attrs (m : mesh) : Prop := forall n, In n xyz_exp_special_attrs -> ~ In n (attr_names (aV m)).
+
 (* ------------------------------------------------------------------ xyz.py (vertices without a "normals" attribute) *)
 Definition print_xyz (m : mesh) : option (list line) :=
   omap (fun v => omap (fun i => option_map fl (vtx_idx v i)) xyz_exp_idx) (mV m).
